@@ -143,6 +143,47 @@ class DbCompiler(PI.Compiler):
         return text.replace(f"Definition gen_{name} (self : pyindex)", f"Definition gen_db_{name} (self : pydb)")
 
 
+class MeasCompiler(DbCompiler):
+    """methods of class Measurement (measurement.py): `self._db` is the database object, `self._name` / `self.name` the handle's measurement name"""
+
+    @staticmethod
+    def rewrite(fn):
+        class R(ast.NodeTransformer):
+            def visit_Attribute(self, n):
+                self.generic_visit(n)
+                if isinstance(n.value, ast.Name) and n.value.id == "self" and n.attr == "_db":
+                    return ast.copy_location(ast.Name(id="self", ctx=ast.Load()), n)
+                if isinstance(n.value, ast.Name) and n.value.id == "self" and n.attr in ("_name", "name"):
+                    return ast.copy_location(ast.Name(id="name", ctx=ast.Load()), n)
+                return n
+        fn2 = R().visit(ast.parse(ast.unparse(fn)).body[0])
+        fn2.args.args.append(ast.arg(arg="name", annotation=ast.Name(id="str", ctx=ast.Load())))
+        return ast.fix_missing_locations(fn2)
+
+    def __init__(self, cls):
+        self.fns = {n.name: self.rewrite(n) for n in cls.body if isinstance(n, ast.FunctionDef) and n.name in ("__len__",)}
+        self.sigs = {}
+
+    def is_pathlike(self, e):
+        x = e
+        while isinstance(x, ast.Subscript):
+            x = x.value
+        return is_self_attr(x, "_index", "_measurements") or super().is_pathlike(e)
+
+    def ex(self, e, env):
+        if is_self_attr(e, "_index", "_measurements"):
+            return "(_measurements (db_index self))", D(L(INT))
+        return super().ex(e, env)
+
+    def path(self, e, env):
+        if is_self_attr(e, "_index", "_measurements"):
+            return "(_measurements (db_index self))", D(L(INT)), (lambda nv: (_ for _ in ()).throw(Refuse("a getter assigns the index's maps"))), "self._index._measurements"
+        return super().path(e, env)
+
+    def method(self, name, getter, decorators):
+        return super().method(name, getter, decorators).replace(f"Definition gen_db_{name} ", f"Definition gen_meas_{name} ")
+
+
 HEADER = """(* GENERATED on every run by harness/py2coq_dbget.py from tinyflux/database.py (the getters of class TinyFlux) - do not edit.
    proofs/DbGetGenP.v proves them, with the read_op decorator, equal to the specification on the stored rows on both paths. *)
 From Coq Require Import List ZArith Bool Arith.
@@ -163,6 +204,11 @@ def main():
             raise Refuse("class TinyFlux not found")
         c = DbCompiler(cls[0])
         text = HEADER + "Definition refused : bool := false.\n\n" + "".join(c.method(n, (t, k), d) for n, t, k, d in GETTERS)
+        mtree = ast.parse(open(os.path.join(pkg, "measurement.py")).read())
+        mcls = [n for n in mtree.body if isinstance(n, ast.ClassDef) and n.name == "Measurement"]
+        if len(mcls) != 1:
+            raise Refuse("class Measurement not found")
+        text += "(* class Measurement (measurement.py): self._db is the database object, self._name the handle's name *)\n" + MeasCompiler(mcls[0]).method("__len__", ("nat", INT), [])
     except (Refuse, SyntaxError, OSError, RecursionError) as r:
         refused = str(r)
         snap = open(FALLBACK_FILE).read().replace("Definition refused : bool := false.", "Definition refused : bool := true.")
